@@ -152,4 +152,11 @@ CHECKS = {
         "level_note": "crypto/tls trusted; in-memory stream instead of kernel TCP (short reads happen at TLS-record granularity only); if tls.Dial cannot be redirected on the tree under check only the receiver-side cases run",
         "budget_s": {"quick": 170, "thorough": 900},
     },
+    "C19": {
+        "pkg": "checks/c19", "level": "exploration", "engine": "E4 bounded-exhaustive",
+        "technique": "exhaustive enumeration over every message type emitted by complete tss-lib key-generation and signing runs for several (n,t), every (claimed sender, actual sender) pair and a digest alphabet, against the real ECDSA/EdDSA adapters",
+        "level_text": "receiver-side classification agrees with the library's routing for every captured message, broadcast rounds are distinct per phase, re-fed messages are attributed to the transport sender or dropped, Sign returns a signature verifying for exactly the requested digest (incl. leading zero bytes) and never for a digest the party was not asked to sign",
+        "level_note": "real time (the tss-lib runs are not executed in a bubble); ECDSA key generation runs the library directly on fixture pre-parameters (the adapter's own KeyGen generates safe primes and is not run); digests from a fixed alphabet",
+        "budget_s": {"quick": 200, "thorough": 900}, "workers": 6, "exec_timeout_s": 400,
+    },
 }
